@@ -186,6 +186,12 @@ def stepLine (line : String) : String :=
             " closed=" ++ (if st.closed then "t" else "f") ++ " ka=" ++ showRat st.keepAlive.1
         | _, _ => "bad-op"
       | _, _, _ => "bad-op"
+  | ["iofault", ioh, closed, who] =>
+      let hb (t : String) : Option Bool := if t = "t" then some true else if t = "f" then some false else none
+      let cfg : SrvCfg := { kind := .dataK, excHandler := none, ioHandler := hb ioh }
+      let st : RState := { keepAlive := (0, 0), closed := closed == "t" }
+      let acts := if who = "reader" then readerFault cfg st else writerFault cfg
+      "ok " ++ " ".intercalate (acts.map fun a => match a with | .handlerIo => "iohandler" | .exit => "exit")
   | "sender" :: tie :: k0 :: hz :: evs =>
       let parseEv (t : String) : Option (Nat × SAct) :=
         match t.splitOn ":" with
